@@ -986,7 +986,10 @@ def _cost_class(self, name) -> str:
             for seg in self.plans[n]:
                 if isinstance(seg, ArraySeg):
                     medium = True
-                    if seg.elem[0] == 'struct' and (seg.elem_static is None or seg.has_elemsize):
+                    if seg.elem[0] == 'struct' and (seg.elem_static is None or seg.has_elemsize
+                                                    or self.decls[seg.elem[1]].parent):
+                        heavy = True
+                    if seg.padding is not None and seg.shape[0] == 'rest':
                         heavy = True
                     if seg.has_elemsize:
                         heavy = True
